@@ -1,5 +1,5 @@
 (* Extraction of the executable models.  ExtrOcamlBasic only; no Extract Constant / Extract Inductive of our own. *)
-Require Import ScanFull InstsFull Pass.
+Require Import ScanFull InstsFull Pass Nest.
 Require Extraction.
 Require Import ExtrOcamlBasic.
-Extraction "../runner/model.ml" run_join run_merge run_zip run_group run_race run_race_ok run_chain run_wait join_world merge_world zip_world group_world race_world chain_world tr.
+Extraction "../runner/model.ml" run_join run_merge run_zip run_group run_race run_race_ok run_chain run_wait join_world merge_world zip_world group_world race_world chain_world tr nest_run.
